@@ -37,6 +37,14 @@ const basePreamble = `(declare-datatypes ((Slice 0)) (((mk_slice (s_arr Int) (s_
 (declare-fun f64 (Int) (_ FloatingPoint 11 53))
 (declare-fun f32 (Int) (_ FloatingPoint 8 24))
 (declare-fun str_eq (Slice Slice) Bool)
+(declare-fun fadd64 ((_ FloatingPoint 11 53) (_ FloatingPoint 11 53)) (_ FloatingPoint 11 53))
+(declare-fun fsub64 ((_ FloatingPoint 11 53) (_ FloatingPoint 11 53)) (_ FloatingPoint 11 53))
+(declare-fun fmul64 ((_ FloatingPoint 11 53) (_ FloatingPoint 11 53)) (_ FloatingPoint 11 53))
+(declare-fun fdiv64 ((_ FloatingPoint 11 53) (_ FloatingPoint 11 53)) (_ FloatingPoint 11 53))
+(declare-fun fadd32 ((_ FloatingPoint 8 24) (_ FloatingPoint 8 24)) (_ FloatingPoint 8 24))
+(declare-fun fsub32 ((_ FloatingPoint 8 24) (_ FloatingPoint 8 24)) (_ FloatingPoint 8 24))
+(declare-fun fmul32 ((_ FloatingPoint 8 24) (_ FloatingPoint 8 24)) (_ FloatingPoint 8 24))
+(declare-fun fdiv32 ((_ FloatingPoint 8 24) (_ FloatingPoint 8 24)) (_ FloatingPoint 8 24))
 (assert (= (f64 0) (_ +zero 11 53)))
 (assert (= (f64 9223372036854775808) (_ -zero 11 53)))
 (assert (fp.isNaN (f64 9221120237041090561)))
@@ -67,7 +75,11 @@ func (o *Obligation) scriptV(P *Prog, models bool, hide int) string {
 	var reveal func(string) bool
 	switch hide {
 	case 1:
-		reveal = func(name string) bool { return P.mentionsTransitively(o.Neg, name) }
+		set := map[string]bool{}
+		for _, n := range P.opaqueNames() {
+			set[n] = P.mentionsTransitively(o.Neg, n)
+		}
+		reveal = func(name string) bool { return set[name] }
 	case 2:
 		reveal = func(name string) bool { return false }
 	}
@@ -84,6 +96,11 @@ func (o *Obligation) scriptV(P *Prog, models bool, hide int) string {
 	if o.Neg != "true" {
 		b.WriteString("(assert ")
 		b.WriteString(o.Neg)
+		b.WriteString(")\n")
+	}
+	for _, eq := range P.groundUnfold(append(append([]string(nil), o.Facts...), o.Neg)) {
+		b.WriteString("(assert ")
+		b.WriteString(eq)
 		b.WriteString(")\n")
 	}
 	b.WriteString("(check-sat)\n")
